@@ -2,3 +2,4 @@ import Drv.Common
 import Drv.Args
 import Drv.Store
 import Drv.Pipeline
+import Drv.Scope
